@@ -169,7 +169,7 @@ def cli_confirm(ctx, rep, p, q, expect_unsound_witness=None):
 
 def run(ctx, rep):
     rng = ctx.rng()
-    nb = ctx.n(48, 4000)
+    nb = ctx.n(48, 1500)
     batches = [[gen_type(rng) for _ in range(24)] for _ in range(nb)]
     # structured batches: chains of related predicates make accepted pairs frequent
     for _ in range(ctx.n(16, 1000)):
